@@ -189,6 +189,10 @@ func checkC02(c *Check) {
 		c.add("O-C02.6", "local signer keeps the leaf's key spec, the key and the chain", "the signer reports the key spec extracted from the leaf certificate", good, posOf(pg, ok))
 	}
 	headerNameDifferential(c)
+	// the leaf key the declared algorithm is compared with is parsed from this envelope's own bytes
+	// on every call: the read methods keep no memo that could outlive a later Sign (O-C20.3), and
+	// the chain handed to the comparison is the verifier's chain field (O-C01.2)
+	c.floor("purity rules (shared with C20)", 1, shareRules(c, checkC20, []string{"O-C20.3"}, "O-C02.4", "no memo: "))
 }
 
 // likeNamed: last path component suffix after a prefix.
